@@ -290,6 +290,15 @@ def op_load_npy_as_striped(ctx, e, ops, N, poison):
     ctx.scenario.update(files=n_files, lengths=[len(a) for a in arrays], stride=stride, dtype=dt)
     outs = run_world(ctx, N, lambda r: io.load_npy_as_striped(list(files), stride=stride), poison)
     check_striped_load(ctx, N, outs, arrays, stride, 'load_npy_as_striped')
+    if t.flag(1, 3):
+        # what was loaded belongs to the caller: the files are written again with other numbers (same shape), the loaded
+        # arrays still hold what was read - and the caller can write into them
+        for fn, a in zip(files, arrays):
+            np.save(fn, (a + 7).astype(dt))
+        check_striped_load(ctx, N, outs, arrays, stride, 'load_npy_as_striped (files rewritten after the load)')
+        for r, (gl, data) in enumerate(outs):
+            require(np.asarray(data).flags.writeable, 'loaded_array_read_only', lambda: 'rank %d got a read-only array' % r)
+        ctx.hit('env_files_rewritten_after_load')
 
 
 def check_striped_load(ctx, N, outs, arrays, stride, what):
